@@ -79,7 +79,11 @@ impl<T> Drop for Sender<T> {
         for command in self.pending_messages.drain(..) {
             #[cfg(fastrace_verif)]
             crate::verif::push_point(self.tx.buffer() as *const _ as usize, "exit", &|| self.tx.is_full());
-            drop(self.tx.push(command));
+            // Do not let later messages through once one did not fit: a commit must not arrive
+            // without the cancel that was queued before it.
+            if self.tx.push(command).is_err() {
+                break;
+            }
         }
         #[cfg(fastrace_verif)]
         crate::verif::sender_dropped(self.tx.buffer() as *const _ as usize);
